@@ -31,8 +31,9 @@ import (
 //           s:<code>               that status, empty body
 //           drop                   the connection is closed without an answer
 //           b:<n>:plain|chunked|cut   200 with n body bytes (declared length / chunked / declared but cut short)
-//           z:<n>:all|stream|corrupt  200, Content-Encoding: zstd, body = zstd of n bytes
-//                                     (single frame with content size / streamed frame / garbage)
+//           z:<n>:all|stream|corrupt|multi<k>  200, Content-Encoding: zstd, body = zstd of n bytes
+//                                     (single frame with content size / streamed frame / garbage /
+//                                      k concatenated frames, each declaring its own content size)
 //           anything else answers 404.
 //   val     nil: no validator; allow: accepts all; https: HTTPSOnlyValidator; deny: rejects URLs whose
 //           path contains "deny".
@@ -172,8 +173,19 @@ func c31ZBody(n int, mode string) []byte {
 		}
 		e.Close()
 		out = buf.Bytes()
-	default:
+	case "corrupt":
 		out = []byte("definitely not a zstd frame")
+	default: // multi<k>: k concatenated frames, each with its declared content size, n bytes in total
+		k, _ := strconv.Atoi(strings.TrimPrefix(mode, "multi"))
+		if k < 1 {
+			k = 1
+		}
+		e, _ := zstd.NewWriter(nil, zstd.WithEncoderConcurrency(1))
+		for i := 0; i < k; i++ {
+			lo, hi := n*i/k, n*(i+1)/k
+			out = e.EncodeAll(raw[lo:hi], out)
+		}
+		e.Close()
 	}
 	c31ZCache[key] = out
 	return out
@@ -512,7 +524,7 @@ func c31Exec(c *Case) {
 			c.Oracle("oversized-body-accepted", fmt.Sprintf("a %d-byte body was accepted with max_fetch_bytes=%d", fetchedEnc, effFetch))
 		}
 		if fetchedDec >= 0 && fetchedDec != fetchedEnc && int64(fetchedDec) > effDec {
-			c.Oracle("oversized-decoded-payload-accepted", fmt.Sprintf("a payload decoding to %d bytes was accepted with max_decompressed_bytes=%d", fetchedDec, effDec))
+			c.Oracle("decoded-over-cap-accepted", fmt.Sprintf("a payload decoding to %d bytes was accepted with max_decompressed_bytes=%d", fetchedDec, effDec))
 		}
 		for _, sec := range []string{qsec, usec} {
 			if strings.Contains(errText, sec) && !strings.HasPrefix(errText, "SHA-256") {
@@ -642,6 +654,27 @@ func c31Gen(g *Gen) {
 		b := fmt.Sprintf("b:%d:chunked", Pick(r, []int{mf + 1, mf + 1, mf + 2, mf + 48, 2 * mf, mf, mf - 1}))
 		if r.Chance(30) {
 			g.Case(line(c, "nil", "h/s", r.Chance(30), r.Chance(50), []string{"*|h/s|r:h/big", "*|h/big|" + b}))
+		} else {
+			g.Case(line(c, "nil", "h/s", r.Chance(30), r.Chance(50), []string{"*|h/s|" + b}))
+		}
+	}
+	// (c'') multi-frame zstd bodies: every frame (and its declared size) fits under the decompression
+	// cap, the total may not
+	for i := 0; i < g.N(40, 400); i++ {
+		c := pickCfg()
+		c.maxdec = Pick(r, []int{1500, 2048, 4096})
+		if c.maxfetch > 0 {
+			c.maxfetch = 0 // default cap: the encoded body is small anyway
+		}
+		frame := Pick(r, []int{300, 512, 1024, 1100})
+		k := Pick(r, []int{2, 3, 4, 8, 16})
+		total := frame * k
+		if r.Chance(30) { // land exactly around the cap
+			total = c.maxdec + Pick(r, []int{-1, 0, 1, 2})
+		}
+		b := fmt.Sprintf("z:%d:multi%d", total, k)
+		if r.Chance(25) {
+			g.Case(line(c, "nil", "h/s", r.Chance(30), r.Chance(50), []string{"*|h/s|r:h/zz", "*|h/zz|" + b}))
 		} else {
 			g.Case(line(c, "nil", "h/s", r.Chance(30), r.Chance(50), []string{"*|h/s|" + b}))
 		}
